@@ -528,6 +528,22 @@ func judgeC19(c c19Case) (v core.Verdict) {
 	if !check("multi after ClearLoaders + AddLoaders", m2, []map[string]string{fm}) {
 		return
 	}
+	// two stacks built from the same slice, which has room to spare, each given one more loader: each keeps the
+	// loaders it was built from and the one it was given itself, in that order
+	if len(loaders) >= 2 {
+		spare := make([]jet.Loader, len(loaders)-1, len(loaders)+3)
+		copy(spare, loaders[:len(loaders)-1])
+		s1, s2 := multi.NewLoader(spare...), multi.NewLoader(spare...)
+		s1.AddLoaders(loaders[len(loaders)-1])
+		s2.AddLoaders(foreign)
+		v.Label("siblings-from-a-slice-with-spare-capacity")
+		if !check("multi built from a slice with spare capacity, after a sibling built from the same slice was given another loader", s1, models) {
+			return
+		}
+		if !check("second multi built from a slice with spare capacity", s2, append(append([]map[string]string{}, models[:len(models)-1]...), fm)) {
+			return
+		}
+	}
 	// a multi stacked inside a multi: the outer one answers from whatever the inner one holds at the time of the question
 	inner := multi.NewLoader(loaders[:1]...)
 	outer := multi.NewLoader(inner)
@@ -577,7 +593,7 @@ func judgeC19(c c19Case) (v core.Verdict) {
 
 func TestC19(t *testing.T) {
 	core.Run(t, "C19",
-		"(a) InMemLoader histories of Set/Delete/Exists/Open under generated spellings (./ ../ // trailing slash, with and without leading slash) against a map keyed by an independent normaliser; (b) OS/http/embed loaders over generated trees (embed: fixed tree) queried with every clean absolute path of the universe (files, directories, missing siblings, paths below files, root); (c) multi stacks of 1-4 such loaders with overlapping contents and AddLoaders mid-history; non-trivial = a query spelt differently from the spelling used to store, or naming a directory, or answered by a later loader of a stack",
+		"(a) InMemLoader histories of Set/Delete/Exists/Open under generated spellings (./ ../ // trailing slash, with and without leading slash) against a map keyed by an independent normaliser; (b) OS/http/embed loaders over generated trees (embed: a fixed tree below testdata/ and a package that embeds its own directory, root '.', with dot files and a dot directory at the top level) queried with every clean absolute path of the universe (files, directories, missing siblings, paths below files, root); (c) multi stacks of 1-4 such loaders with overlapping contents and AddLoaders mid-history, plus two in-memory layers between which a path moves after Exists has answered and before Open is asked; non-trivial = a query spelt differently from the spelling used to store, or naming a directory, or answered by a later loader of a stack",
 		genC19, judgeC19)
 }
 
